@@ -95,7 +95,7 @@ func (r *Run) Paths(fn *Func) []Path {
 				dead = true
 				break
 			}
-			if r.contradictsHelperResult(path, j) {
+			if r.contradictsHelperResult(path, j) || contradictsBoundConstant(ev) {
 				dead = true
 				break
 			}
@@ -686,4 +686,30 @@ func isFreshError(info *types.Info, call *ast.CallExpr) bool {
 		call = inner
 	}
 	return false
+}
+
+// contradictsBoundConstant: the guard tests a boolean parameter of a looked-into helper instance whose
+// argument at this call site is a constant, and the outcome is the opposite of that constant.
+func contradictsBoundConstant(ev Event) bool {
+	cx, val := ast.Unparen(ev.Cond), ev.Val
+	for {
+		u, ok := cx.(*ast.UnaryExpr)
+		if !ok || u.Op != token.NOT {
+			break
+		}
+		cx, val = ast.Unparen(u.X), !val
+	}
+	id, ok := cx.(*ast.Ident)
+	if !ok || ev.Fn == nil {
+		return false
+	}
+	bfn, bx := resolveBound(ev.Fn, id)
+	if bfn == ev.Fn && bx == ast.Expr(id) {
+		return false
+	}
+	tv, ok := bfn.Info().Types[bx]
+	if !ok || tv.Value == nil || tv.Value.Kind() != constant.Bool {
+		return false
+	}
+	return constant.BoolVal(tv.Value) != val
 }
